@@ -293,14 +293,26 @@ func (p *prop) judge(k *kase, sel string, rcd *rec, res *scriptResult, o *core.O
 				fail("encoded-below-minimum-length", "first write %d bytes, Content-Length %q, minimum_length %d", len(firstPayload(k.ops)), refHdr.Get("Content-Length"), eff)
 			}
 			if h, err := buildHandler(k.enc, k.prefer, k.min, k.m, k.mkey, true); err == nil && h.Matcher != nil {
-				ok := h.Matcher.Match(0, gotHdr)
+				// the matcher judges the response as the HANDLER left it (plus a sniffed Content-Type),
+				// not the header init() has edited afterwards
+				mh := cloneWithout(refHdr)
+				if mh.Get("Content-Type") == "" && gotHdr.Get("Content-Type") != "" {
+					mh.Set("Content-Type", gotHdr.Get("Content-Type"))
+				}
+				if hasStatus(k.ops, 304) && !varyHasAE(mh) {
+					mh.Add("Vary", "Accept-Encoding") // WriteHeader(304) adds it before anything is decided
+				}
+				ok := h.Matcher.Match(0, mh)
 				for _, op := range k.ops {
 					if op.kind == 'h' {
-						ok = ok || h.Matcher.Match(op.status, gotHdr)
+						ok = ok || h.Matcher.Match(op.status, mh)
 					}
 				}
+				if !ok && hasStatus(k.ops, 304) {
+					ok = h.Matcher.Match(0, refHdr) || h.Matcher.Match(304, refHdr)
+				}
 				if !ok {
-					fail("encoded-but-matcher-rejects", "response matcher %s rejects status/headers %s", k.mkey, showHdr(gotHdr))
+					fail("encoded-but-matcher-rejects", "response matcher %s rejects status/headers %s", k.mkey, showHdr(mh))
 				}
 			}
 		}
